@@ -22,7 +22,7 @@ Local Open Scope N_scope.
    initial state of any configuration: no step panics *)
 Theorem C13_messages_never_panic :
   forall c now nts inv known0 es, Gossip.run c (init_state c now nts inv known0) es <> None.
-Proof. exact (fun c now nts inv known0 es => run_no_panic c es _ (init_state_inv13 c now nts inv known0)). Qed.
+Proof. exact (fun c now nts inv known0 es => run_no_panic es c _ (init_state_inv13 c now nts inv known0)). Qed.
 
 (* one step from any state whose cached inventory timestamp is non-zero *)
 Theorem C13_message_step_never_panics :
